@@ -918,12 +918,13 @@ fn main() {
     // ---- family B: large n ----------------------------------------------------------------------------------------
     let ns: [u32; 12] = [1, 2, 3, 99, 100, 101, 102, 499, 500, 501, 502, 600];
     let shapes = [Shape::Ring, Shape::StarIn, Shape::StarOut, Shape::Chain, Shape::NoEdge, Shape::Clique];
-    let clique_max = run.tier.pick(101, 600);
+    let clique_max = run.tier.pick(101, 501);
     let mut bases: Vec<Base> = Vec::new();
     for &shape in &shapes {
         for &n in &ns {
-            // quick: cliques only at 1,2,3 and on both sides of the n > 100 threshold (100, 101)
-            if shape == Shape::Clique && (n > clique_max || (run.tier == Tier::Quick && (n == 99 || n == 102))) {
+            // cliques (n^2 statements): quick 1,2,3 and both sides of the n > 100 threshold (100, 101);
+            // thorough additionally 99, 102 and both sides of the n > 500 threshold (500, 501)
+            if shape == Shape::Clique && (n > clique_max || (run.tier == Tier::Quick && (n == 99 || n == 102)) || (n > 102 && n != 500 && n != 501)) {
                 continue;
             }
             for anchors in [vec![], vec![0u32], vec![0u32, n]] {
@@ -1037,7 +1038,7 @@ fn main() {
             "wall_s": {"A1": wall_a1, "A2": wall_a2, "B": wall_b},
             "A2": {"nodes": a2_nodes.iter().map(|i| bfs_name(*i)).collect::<Vec<_>>(), "anchor_capable": ["P"], "amounts": [big], "alphabet_ops": ops_a2.len(), "depth": depth_a2, "completed_depth": st2.completed_depth,
                    "states": st2.states, "transitions": st2.transitions, "revisits_compared": st2.revisits, "frontier_sizes": st2.frontier_sizes, "fixpoint": st2.fixpoint},
-            "B": {"n": ns, "shapes": ["Ring","StarIn","StarOut","Chain","NoEdge","Clique"], "clique_max_n": clique_max, "constructor_anchors": ["none","n0","n0 + external"],
+            "B": {"n": ns, "shapes": ["Ring","StarIn","StarOut","Chain","NoEdge","Clique"], "clique_n": run.tier.pick(vec![1, 2, 3, 100, 101], vec![1, 2, 3, 99, 100, 101, 102, 500, 501]), "constructor_anchors": ["none","n0","n0 + external"],
                   "base_x_class": bases.len(), "extensions_done": fam_done, "extensions_skipped": fam_skipped},
             "compute_global_trust_calls": computes.load(Ordering::Relaxed),
             "compute_global_trust_calls_that_returned_through_the_2s_timeout": fallbacks.load(Ordering::Relaxed),
